@@ -85,13 +85,22 @@ class C17(Spec):
         for _ in range(n):
             mode = rng.choice(['abs', 'amp'])
             call = rng.random() < 0.5
-            th0 = rng.choice([2, 4, 8, 3])
+            th0 = rng.choice([2, 4, 8, 3, 2, 4, 0, -2])         # incl. zero and negative thresholds
             batches = []
             for _b in range(rng.randint(1, 4)):
-                th = rng.choice([2, 4, 8, 3, 1]) if call else th0
+                th = rng.choice([2, 4, 8, 3, 1, 0, -1]) if call else th0
                 bad = rng.choice(['multi', '2d', '1d', '4d']) if rng.random() < 0.08 else None
                 batches.append(self.mk_batch(rng, th, bad=bad))
-            yield {'kind': 'sequence', 'mode': mode, 'callable': call, 'batches': batches}
+            c = {'kind': 'sequence', 'mode': mode, 'callable': call, 'batches': batches}
+            r = rng.random()
+            if r < 0.25:
+                # acquisition hardware delivers integer counts: the same lattice values as unsigned / signed integers
+                # (unscaled; unsigned: |v| + 1, so that every epoch's minimum is non-zero) or as float32
+                c['dtype'] = rng.choice(['uint8', 'uint16', 'int16', 'float32'])
+                if c['dtype'].startswith('uint'):
+                    for b in batches:
+                        b['vals'] = [abs(v) + 1 for v in b['vals']]
+            yield c
 
     def model_lines(self, c):
         lines = [f"mode {c['mode']}"]
@@ -107,12 +116,17 @@ class C17(Spec):
         cur = [None]
         got, status = [], []
         mode = {'abs': 'absolute value', 'amp': 'amplitude'}[c['mode']]
-        th = (lambda: cur[0]) if c['callable'] else c['batches'][0]['th'] / SCALE
+        dt = c.get('dtype')
+        scale = 1 if dt and 'int' in dt else SCALE      # integer dtypes carry the lattice values themselves
+        th = (lambda: cur[0]) if c['callable'] else c['batches'][0]['th'] / scale
         co = P.reject_epochs(th, mode, status.append, got.append)
         out = ['ok']
         for b in c['batches']:
-            cur[0] = b['th'] / SCALE
-            data = (np.array(b['vals'], dtype=float) / SCALE).reshape(b['shape'])
+            cur[0] = b['th'] / scale
+            if dt and 'int' in dt:
+                data = np.array(b['vals'], dtype=dt).reshape(b['shape'])
+            else:
+                data = (np.array(b['vals'], dtype=dt or float) / SCALE).reshape(b['shape'])
             if b['annot']:
                 md = [{'i': v} for v in b['md']] if isinstance(b['md'], list) else {'i': b['md']}
                 data = P.PipelineData(data, fs=b['fs'][0] / b['fs'][1], s0=b['s0'],
@@ -139,7 +153,7 @@ class C17(Spec):
                 fwd = 'empty'
             else:
                 rows = arr.reshape(arr.shape[0], -1) if arr.ndim >= 1 else arr.reshape(1, -1)
-                fwd = ';'.join(ilist([int(round(x * SCALE)) for x in r]) for r in rows.tolist())
+                fwd = ';'.join(ilist([int(round(x * scale)) for x in r]) for r in rows.tolist())
             line = f'ok mask={mask} fwd={fwd} shape={ilist(arr.shape)}'
             if b['annot']:
                 if not isinstance(v, P.PipelineData):
